@@ -992,3 +992,78 @@ def apply_local_partials(tree: ast.Module) -> int:
                             lst.append(ast.Pass())
             total += 1
     return total
+
+
+# --------------------------------------------------------------------------
+# canonical call form: keyword arguments for *required* positional parameters become positional
+# --------------------------------------------------------------------------
+
+
+def collect_required_signatures(tree: ast.Module, out: Dict[str, List[Tuple[List[str], int]]]) -> None:
+    """out[name] += (positional parameter names without self/cls, number of required ones) for every module-level
+    function, method and record class / __init__ of this module."""
+
+    def add_fn(name: str, f, drop_first: bool) -> None:
+        a = f.args
+        pp = [x.arg for x in a.posonlyargs + a.args]
+        if drop_first and pp:
+            pp = pp[1:]
+        nreq = len(a.posonlyargs + a.args) - len(a.defaults) - (1 if drop_first and (a.posonlyargs + a.args) else 0)
+        out.setdefault(name, []).append((pp, max(nreq, 0)))
+
+    recs = record_classes(tree)
+    for n in tree.body:
+        if isinstance(n, (ast.FunctionDef, ast.AsyncFunctionDef)):
+            add_fn(n.name, n, False)
+        elif isinstance(n, ast.ClassDef):
+            init = None
+            for m in n.body:
+                if isinstance(m, (ast.FunctionDef, ast.AsyncFunctionDef)):
+                    static = any(isinstance(d, ast.Name) and d.id == "staticmethod" for d in m.decorator_list)
+                    add_fn(m.name, m, not static)
+                    if m.name == "__init__":
+                        init = m
+            if init is not None:
+                add_fn(n.name, init, True)
+            elif n.name in recs:
+                fields, defaults, _ = recs[n.name]
+                nreq = 0
+                for f in fields:
+                    if f in defaults:
+                        break
+                    nreq += 1
+                out.setdefault(n.name, []).append((list(fields), nreq))
+
+
+def canonicalise_required_kwargs(tree: ast.AST, sigs: Dict[str, List[Tuple[List[str], int]]]) -> int:
+    """`f(a, b=x, c=y)` -> `f(a, x, y)` when b, c are the next *required* positional parameters of every
+    in-repo callable of that name that accepts all the keywords used (purely syntactic; evaluation order is
+    irrelevant to the analyses).  Optional parameters keep their keyword form."""
+    n_conv = 0
+    for c in ast.walk(tree):
+        if not isinstance(c, ast.Call) or not c.keywords:
+            continue
+        name = c.func.id if isinstance(c.func, ast.Name) else c.func.attr if isinstance(c.func, ast.Attribute) else None
+        if name is None or name not in sigs:
+            continue
+        if any(isinstance(a, ast.Starred) for a in c.args):
+            continue
+        kwnames = [k.arg for k in c.keywords if k.arg is not None]
+        cands = [(pp, nreq) for pp, nreq in sigs[name] if all(k in pp for k in kwnames) and len(c.args) <= len(pp)]
+        if not cands:
+            continue
+        while True:
+            i = len(c.args)
+            nxt = {pp[i] if i < nreq else None for pp, nreq in cands}
+            if len(nxt) != 1:
+                break
+            p = next(iter(nxt))
+            if p is None:
+                break
+            kw = next((k for k in c.keywords if k.arg == p), None)
+            if kw is None:
+                break
+            c.args.append(kw.value)
+            c.keywords.remove(kw)
+            n_conv += 1
+    return n_conv
